@@ -37,23 +37,67 @@ def script_entry(tok):
     return ("ok", MODE[tok[1]], MODE[tok[2]])
 
 
+async def open_with_modes(conn):
+    """scripted open whose successful result carries the transport behaviour of the script entry"""
+    k = conn.nopen
+    conn.nopen += 1
+    n0 = len(conn.writers)
+    res = await connfake.scripted_open(conn)
+    if len(conn.writers) > n0 and k < len(conn.entries):
+        conn.writers[-1].drain_mode = conn.entries[k][1]
+        conn.writers[-1].close_mode = conn.entries[k][2]
+    return res
+
+
 class ScriptedConn(connfake.ScriptedConnection):
-    """script entries carry the transport behaviour of a successful open"""
+    """the public extension point: a Connection subclass with its own `_open_connection`
+    (decorated with the real @timeout(CONNECT_TIMEOUT), as the library's subclasses are)"""
 
     def __init__(self, entries, **kw):
         super().__init__(script=[e[0] for e in entries], **kw)
         self.entries = list(entries)
         self.nopen = 0
 
+    @connfake.timeout(connfake.CONNECT_TIMEOUT)
     async def _open_connection(self):
-        k = self.nopen
-        self.nopen += 1
-        n0 = len(self.writers)
-        res = await connfake.ScriptedConnection._open_connection(self)
-        if len(self.writers) > n0 and k < len(self.entries):
-            self.writers[-1].drain_mode = self.entries[k][1]
-            self.writers[-1].close_mode = self.entries[k][2]
-        return res
+        return await open_with_modes(self)
+
+
+def make_connection(kind, entries, protocol, rc):
+    """kind 'x': ScriptedConn; 't' / 's': the library's own TcpConnection / SerialConnection on a scripted *network*
+    (asyncio.open_connection / serial_asyncio.open_serial_connection replaced by the scripted open), so that their own
+    `_open_connection` - including its CONNECT_TIMEOUT - is what runs.  Returns (connection, undo)."""
+    if kind == "x":
+        return ScriptedConn(entries, protocol=protocol, reconnect_on_failure=bool(rc)), (lambda: None)
+    from pyplumio.connection import SerialConnection, TcpConnection
+
+    if kind == "t":
+        conn = TcpConnection("192.0.2.1", 8899, protocol=protocol, reconnect_on_failure=bool(rc))
+    else:
+        conn = SerialConnection("/dev/ttyFAKE0", 115200, protocol=protocol, reconnect_on_failure=bool(rc))
+    conn.script = [e[0] for e in entries]
+    conn.default = "ok"
+    conn.opens, conn.readers, conn.writers, conn.log = [], [], [], []
+    conn.entries, conn.nopen = list(entries), 0
+
+    async def net_open(*a, **kw):
+        return await open_with_modes(conn)
+
+    undo = []
+    if kind == "t":
+        orig = asyncio.open_connection
+        asyncio.open_connection = net_open
+        undo.append(lambda: setattr(asyncio, "open_connection", orig))
+    else:
+        import sys
+
+        for name in ("serial_asyncio_fast", "serial_asyncio"):
+            mod = sys.modules.get(name)
+            if mod is not None and hasattr(mod, "open_serial_connection"):
+                o = mod.open_serial_connection
+                mod.open_serial_connection = net_open
+                undo.append(lambda mod=mod, o=o: setattr(mod, "open_serial_connection", o))
+    return conn, (lambda: [u() for u in undo])
 
 
 def coro_chain(task):
@@ -89,11 +133,11 @@ class _Log(list):
 
 
 class Runner:
-    def __init__(self, cfg, rc, script):
+    def __init__(self, cfg, rc, script, kind="x"):
         self.loop = vloop.new_loop()
         self.now_ms = 0
         self.protocol = AsyncProtocol(consumers_count=cfg)
-        self.conn = ScriptedConn([script_entry(t) for t in script], protocol=self.protocol, reconnect_on_failure=bool(rc))
+        self.conn, self.undo_net = make_connection(kind, [script_entry(t) for t in script], self.protocol, rc)
         self.cfg = cfg
         self.out = []  # (t_ms, name, args...)
         self.connect_task = None
@@ -196,6 +240,8 @@ class Runner:
             self.gates.clear()
             self.settle()
             return self.segment()
+        if k == "K":  # harness only: which Connection class is under test (see make_connection)
+            return self.segment()
         if k == "S":  # the peer sends the first k bytes of a frame, then stalls
             if self.conn.readers and self.producer_reading() and not self.conn.readers[-1].at_eof():
                 r = self.conn.readers[-1]
@@ -222,6 +268,10 @@ class Runner:
                 elif parts[1] == "s":
                     data = connfake.sensor_frame(int(parts[2]), int(parts[3]))
                     self.fed.append((self.nev, 69, 53))
+                elif parts[1] == "o":  # frame for us from a known address that has no device class
+                    data = fg.mk(186, b"\x040000", 86, int(parts[2]))
+                elif parts[1] == "u":  # wire-valid sensor data whose payload cannot be decoded
+                    data = fg.mk(53, connfake.sensor_payload()[:5], 86, 69)
                 elif parts[1] == "f":
                     data = connfake.foreign_frame()
                 else:
@@ -379,6 +429,7 @@ class Runner:
         loop = self.loop
         from asyncio import events
 
+        self.undo_net()
         events._set_running_loop(loop)
         try:
             pending = [t for t in asyncio.all_tasks(loop) if not t.done()]
